@@ -221,6 +221,7 @@ def run(chk):
         lines += lines_write(rng, 500 if quick else 6000, big=True)
         lines += lines_texts(rng, 700 if quick else 8000, big=True)
         lines += lines_buf(rng, 400 if quick else 5000)
+        lines += F.gen_lex_inputs(rng, 4000 if quick else 60000)
         res = vlib.correspond(chk, h, d, lines, timeout=900 if quick else 3000)
         for l in res['outputs']:
             p = l.split('\t')
@@ -256,7 +257,7 @@ def run(chk):
                 'write: generated DOMs (five lexical classes, ; # _ $ first, quotes in quotes, keywords, |tag|+|value| 118..123, '
                 'text fields with CR-LF / lone CR, empty loops, frames, comments, erased, several blocks, arbitrary byte values) x '
                 'options (3 booleans x widths {0,1,33,34,120,511,512,513,3584,4095,65535} + random), byte-exact; '
-                'buf: BufOstream op sequences, ptr-buf after every op + output; oracles o_q/o_dom/o_rt on gemmi at check levels 0/1/2 '
+                'buf: BufOstream op sequences, ptr-buf after every op + output; lex: the value rule of cif.hpp (through PEGTL) on raw values + tails, mutations, keyword spellings, both bol states (OK length / NO / ERR); oracles o_q/o_dom/o_rt on gemmi at check levels 0/1/2 '
                 'for generated texts, mutated tests/*.cif windows and generated DOMs. non-trivial = not rejected, input > 20 chars')
     if not proved:
         chk.violate('proof', 'Properties_C01 ' + ','.join(getattr(chk, 'failed_theorems', [])),
